@@ -114,10 +114,10 @@ theorem bsel {s i : Nat} (h : i < s) : (if s = 1 then 0 else i) = i := by
 
 /-! ### the index helpers at `n_planes = 1` -/
 
-theorem crw1 (O Cg K g : Nat) : convReshapeWeight [O, Cg, K] g 1 = [O / g, g, Cg, K] := by
+theorem crw1 (O Cg K g : Nat) : convReshapeWeight [O, Cg, K] g 1 = [g, O / g, Cg, K] := by
   simp [convReshapeWeight, setI, getI, posI, List.range, List.range.loop]
 
-theorem cri1 (N C L g : Nat) : convReshapeInput [N, C, L] g 1 = [N, 1, g, C / g, L] := by
+theorem cri1 (N C L g : Nat) : convReshapeInput [N, C, L] g 1 = [N, g, 1, C / g, L] := by
   simp [convReshapeInput, setI, getI, posI, List.range, List.range.loop]
 
 theorem crr1 (a b c d : Nat) : convReshapeReduce [a, b, c, d] 1 = [a, b * c, d] := by
@@ -148,30 +148,34 @@ theorem lt_mul_of_lt {a b Og g : Nat} (ha : a < Og) (hb : b < g) : a * g + b < O
   have h2 : (a + 1) * g = a * g + g := by ring
   omega
 
-/-- weight `(Og·g, Cg, K)` seen as `(Og, g, Cg, K)`: output channel `a·g + b` -/
+/-- weight `(Og·g, Cg, K)` seen as `(g, Og, Cg, K)`: output channel `b·Og + a` (group `b`, `a`-th channel of the group) -/
 theorem rsh_weight {Og g Cg K a b c k : Nat} (ha : a < Og) (hb : b < g) (hc : c < Cg) (hk : k < K) :
-    reshapeIdx [Og * g, Cg, K] [Og, g, Cg, K] [a, b, c, k] = [a * g + b, c, k] := by
+    reshapeIdx [Og * g, Cg, K] [g, Og, Cg, K] [b, a, c, k] = [b * Og + a, c, k] := by
   apply reshapeIdx_eq
-  · simp only [InShape]; exact ⟨lt_mul_of_lt ha hb, hc, hk, trivial⟩
+  · simp only [InShape]; exact ⟨by rw [Nat.mul_comm Og g]; exact lt_mul_of_lt hb ha, hc, hk, trivial⟩
   · simp only [computeOffset, strides, prod]; ring
 
-/-- input `(N, g·Cg, L)` seen as `(N, 1, g, Cg, L)`: input channel `b·Cg + c` -/
+/-- input `(N, g·Cg, L)` seen as `(N, g, 1, Cg, L)`: input channel `b·Cg + c` -/
 theorem rsh_input {N g Cg L n b c j : Nat} (hn : n < N) (hb : b < g) (hc : c < Cg) (hj : j < L) :
-    reshapeIdx [N, g * Cg, L] [N, 1, g, Cg, L] [n, 0, b, c, j] = [n, b * Cg + c, j] := by
+    reshapeIdx [N, g * Cg, L] [N, g, 1, Cg, L] [n, b, 0, c, j] = [n, b * Cg + c, j] := by
   apply reshapeIdx_eq
   · simp only [InShape]; exact ⟨hn, lt_mul_of_lt hb hc, hj, trivial⟩
   · simp only [computeOffset, strides, prod]; ring
 
-/-- merged output `(N, Og·g, Lo)` read from `(N, Og, g, Lo)`: `o ↦ (o / g, o % g)` -/
-theorem rsh_reduce {N Og g Lo n o l : Nat} (hg : 0 < g) (hn : n < N) (ho : o < Og * g) (hl : l < Lo) :
-    reshapeIdx [N, Og, g, Lo] [N, Og * g, Lo] [n, o, l] = [n, o / g, o % g, l] := by
+/-- `o < Og·g` splits as group `o / Og < g` and position `o % Og < Og` inside the group -/
+theorem div_lt_groups {Og g o : Nat} (hOg : 0 < Og) (ho : o < Og * g) : o / Og < g :=
+  (Nat.div_lt_iff_lt_mul hOg).2 (by rw [Nat.mul_comm g Og]; exact ho)
+
+/-- merged output `(N, Og·g, Lo)` read from `(N, g, Og, Lo)`: `o ↦ (o / Og, o % Og)` -/
+theorem rsh_reduce {N Og g Lo n o l : Nat} (hOg : 0 < Og) (hn : n < N) (ho : o < Og * g) (hl : l < Lo) :
+    reshapeIdx [N, g, Og, Lo] [N, Og * g, Lo] [n, o, l] = [n, o / Og, o % Og, l] := by
   apply reshapeIdx_eq
   · simp only [InShape]
-    exact ⟨hn, (Nat.div_lt_iff_lt_mul hg).2 ho, Nat.mod_lt _ hg, hl, trivial⟩
+    exact ⟨hn, div_lt_groups hOg ho, Nat.mod_lt _ hOg, hl, trivial⟩
   · simp only [computeOffset, strides, prod]
-    have := Nat.div_add_mod o g
+    have := Nat.div_add_mod o Og
     calc Og * g * (Lo * 1) * n + (Lo * 1 * o + (1 * l + 0)) = Og * g * Lo * n + (Lo * o + l) := by ring
-      _ = Og * g * Lo * n + (Lo * (g * (o / g) + o % g) + l) := by rw [this]
+      _ = Og * g * Lo * n + (Lo * (Og * (o / Og) + o % Og) + l) := by rw [this]
       _ = _ := by ring
 
 theorem rsh_bias {O o : Nat} (ho : o < O) : reshapeIdx [O] [O, 1] [o, 0] = [o] := by
@@ -187,7 +191,7 @@ def dilV : PArg → Nat | .none => 1 | .int d => d | .arr [d] => d | .arr _ => 0
 /-- accepted forms: None, a positive integer, or a one-element index array with a positive entry -/
 def PosForm (a : PArg) : Prop := a = .none ∨ (∃ d, 0 < d ∧ a = .int d) ∨ (∃ d, 0 < d ∧ a = .arr [d])
 
-def rwArr (w : Arr Int) (Og g Cg K : Nat) : Arr Int := ⟨[Og, g, Cg, K], fun d => w.get (reshapeIdx w.shape [Og, g, Cg, K] d)⟩
+def rwArr (w : Arr Int) (Og g Cg K : Nat) : Arr Int := ⟨[g, Og, Cg, K], fun d => w.get (reshapeIdx w.shape [g, Og, Cg, K] d)⟩
 
 def awArr (w : Arr Int) (Og g Cg K : Nat) (dil : PArg) : Arr Int :=
   match dil with
@@ -197,8 +201,8 @@ def awArr (w : Arr Int) (Og g Cg K : Nat) (dil : PArg) : Arr Int :=
 theorem convWeight1_eq {w : Arr Int} {Og g Cg K : Nat} (hw : w.shape = [Og * g, Cg, K]) (hg : 0 < g) (dil : PArg) :
     convWeight 1 w dil g = some (awArr w Og g Cg K dil) := by
   have hdiv : Og * g / g = Og := Nat.mul_div_cancel _ hg
-  have hprod : prod w.shape = prod [Og, g, Cg, K] := by rw [hw]; simp only [prod]; ring
-  have hre := reshapeV_some (a := w) (dst := [Og, g, Cg, K]) (by simp) hprod
+  have hprod : prod w.shape = prod [g, Og, Cg, K] := by rw [hw]; simp only [prod]; ring
+  have hre := reshapeV_some (a := w) (dst := [g, Og, Cg, K]) (by simp) hprod
   unfold convWeight
   rw [hw, crw1, hdiv, hre]
   cases dil <;> rfl
@@ -207,7 +211,7 @@ theorem cexp1 (d : Nat) : convExpandSpacing (.arr [d]) 1 = [d - 1] := by
   simp [convExpandSpacing, List.range, List.range.loop]
 
 theorem awArr_shape {w : Arr Int} {Og g Cg K : Nat} (hK : 0 < K) {dil : PArg} (hdil : PosForm dil) :
-    (awArr w Og g Cg K dil).shape = [Og, g, Cg, (K - 1) * dilV dil + 1] := by
+    (awArr w Og g Cg K dil).shape = [g, Og, Cg, (K - 1) * dilV dil + 1] := by
   rcases hdil with rfl | ⟨d, hd, rfl⟩ | ⟨d, hd, rfl⟩
   · simp [awArr, rwArr, dilV]; omega
   · obtain ⟨d', rfl⟩ : ∃ d', d = d' + 1 := ⟨d - 1, by omega⟩
@@ -228,7 +232,7 @@ theorem div_lt_of_lt_dil {k' K d : Nat} (hK : 0 < K) (hd : 0 < d) (h : k' < (K -
 
 theorem awArr_get {w : Arr Int} {Og g Cg K : Nat} (hw : w.shape = [Og * g, Cg, K]) (hK : 0 < K) {dil : PArg} (hdil : PosForm dil)
     {a b c k' : Nat} (ha : a < Og) (hb : b < g) (hc : c < Cg) (hk : k' < (K - 1) * dilV dil + 1) :
-    (awArr w Og g Cg K dil).get [a, b, c, k'] = if k' % dilV dil = 0 then w.get [a * g + b, c, k' / dilV dil] else 0 := by
+    (awArr w Og g Cg K dil).get [b, a, c, k'] = if k' % dilV dil = 0 then w.get [b * Og + a, c, k' / dilV dil] else 0 := by
   rcases hdil with rfl | ⟨d, hd, rfl⟩ | ⟨d, hd, rfl⟩
   · simp only [dilV, Nat.mul_one] at hk ⊢
     have hk' : k' < K := by omega
@@ -261,18 +265,18 @@ def padVal : PArg → Nat | .none => 0 | .int p => p | .arr [p] => p | .arr _ =>
 def IntForm (a : PArg) : Prop := a = .none ∨ (∃ p, a = .int p) ∨ (∃ p, a = .arr [p])
 
 def rinArr (x : Arr Int) (N g Cg L : Nat) : Arr Int :=
-  ⟨[N, 1, g, Cg, L], fun d => x.get (reshapeIdx x.shape [N, 1, g, Cg, L] d)⟩
+  ⟨[N, g, 1, Cg, L], fun d => x.get (reshapeIdx x.shape [N, g, 1, Cg, L] d)⟩
 
 def ainArr (x : Arr Int) (N g Cg L : Nat) (pad : PArg) : Arr Int :=
   match pad with
   | .none => rinArr x N g Cg L
-  | _ => ⟨[N, 1, g, Cg, L + padVal pad + padVal pad], padGet (rinArr x N g Cg L) [0, 0, 0, 0, padVal pad]⟩
+  | _ => ⟨[N, g, 1, Cg, L + padVal pad + padVal pad], padGet (rinArr x N g Cg L) [0, 0, 0, 0, padVal pad]⟩
 
 theorem convInput1_eq {x : Arr Int} {N g Cg L : Nat} (hx : x.shape = [N, g * Cg, L]) (hg : 0 < g) {pad : PArg} (hpad : IntForm pad) :
     convInput 1 x pad g = .ok (ainArr x N g Cg L pad) := by
   have hdiv : g * Cg / g = Cg := Nat.mul_div_cancel_left _ hg
-  have hprod : prod x.shape = prod [N, 1, g, Cg, L] := by rw [hx]; simp only [prod]; ring
-  have hre := reshapeV_some (a := x) (dst := [N, 1, g, Cg, L]) (by simp) hprod
+  have hprod : prod x.shape = prod [N, g, 1, Cg, L] := by rw [hx]; simp only [prod]; ring
+  have hre := reshapeV_some (a := x) (dst := [N, g, 1, Cg, L]) (by simp) hprod
   unfold convInput
   rw [hx, cri1, hdiv, hre]
   rcases hpad with rfl | ⟨p, rfl⟩ | ⟨p, rfl⟩
@@ -283,15 +287,15 @@ theorem convInput1_eq {x : Arr Int} {N g Cg L : Nat} (hx : x.shape = [N, g * Cg,
     simp [ainArr, padVal, padShape, rinArr]
 
 theorem ainArr_shape {x : Arr Int} {N g Cg L : Nat} {pad : PArg} (hpad : IntForm pad) :
-    (ainArr x N g Cg L pad).shape = [N, 1, g, Cg, L + 2 * padVal pad] := by
+    (ainArr x N g Cg L pad).shape = [N, g, 1, Cg, L + 2 * padVal pad] := by
   rcases hpad with rfl | ⟨p, rfl⟩ | ⟨p, rfl⟩
   · simp [ainArr, rinArr, padVal]
   · simp [ainArr, padVal]; omega
   · simp [ainArr, padVal]; omega
 
 theorem padIdx_1d {N g Cg L p n b c j : Nat} (hn : n < N) (hb : b < g) (hc : c < Cg) :
-    padIdx [n, 0, b, c, j] [N, 1, g, Cg, L] [0, 0, 0, 0, p]
-      = if j < p ∨ j ≥ L + p then none else some [n, 0, b, c, j - p] := by
+    padIdx [n, b, 0, c, j] [N, g, 1, Cg, L] [0, 0, 0, 0, p]
+      = if j < p ∨ j ≥ L + p then none else some [n, b, 0, c, j - p] := by
   have h1 : ¬ N ≤ n := by omega
   have h2 : ¬ g ≤ b := by omega
   have h3 : ¬ Cg ≤ c := by omega
@@ -299,9 +303,9 @@ theorem padIdx_1d {N g Cg L p n b c j : Nat} (hn : n < N) (hb : b < g) (hc : c <
 
 theorem ainArr_get {x : Arr Int} {N g Cg L : Nat} (hx : x.shape = [N, g * Cg, L]) {pad : PArg} (hpad : IntForm pad)
     {n b c j : Nat} (hn : n < N) (hb : b < g) (hc : c < Cg) (hj : j < L + 2 * padVal pad) :
-    (ainArr x N g Cg L pad).get [n, 0, b, c, j] = padRead x L (padVal pad) n (b * Cg + c) j := by
+    (ainArr x N g Cg L pad).get [n, b, 0, c, j] = padRead x L (padVal pad) n (b * Cg + c) j := by
   have padded : ∀ p, j < L + 2 * p →
-      padGet (rinArr x N g Cg L) [0, 0, 0, 0, p] [n, 0, b, c, j] = padRead x L p n (b * Cg + c) j := by
+      padGet (rinArr x N g Cg L) [0, 0, 0, 0, p] [n, b, 0, c, j] = padRead x L p n (b * Cg + c) j := by
     intro p hj
     simp only [padGet, padRead, rinArr, padIdx_1d hn hb hc]
     by_cases h : p ≤ j ∧ j < L + p
@@ -334,7 +338,7 @@ theorem sw_idx4 (a b c z k : Nat) : slidingWindowIdx 4 [-1] [a, b, c, z, k] = [a
   simp [slidingWindowIdx, slidingWindowIdx.go, posI]
 
 theorem bshape_core {N Og g Cg Lo Kp : Nat} (hOg : 0 < Og) (hLo : 0 < Lo) :
-    bshape [N, 1, g, Cg, Lo, Kp] [Og, g, Cg, 1, Kp] = some [N, Og, g, Cg, Lo, Kp] := by
+    bshape [N, g, 1, Cg, Lo, Kp] [g, Og, Cg, 1, Kp] = some [N, g, Og, Cg, Lo, Kp] := by
   have h1 : max Lo 1 = Lo := by omega
   have h2 : max 1 Og = Og := by omega
   simp [bshape, bshapeRev, h1, h2]
@@ -346,12 +350,12 @@ theorem sum_shape (N a b Cg Lo Kp : Nat) :
 theorem merge6 (n a b l c k : Nat) : mergeIdx [5, 3] 6 0 [n, a, b, l] [c, k] = [n, a, b, c, l, k] := by
   simp [mergeIdx]
 
-theorem convCore1 {ain aw : Arr Int} {N Og g Cg Lp Kp : Nat} (hain : ain.shape = [N, 1, g, Cg, Lp]) (haw : aw.shape = [Og, g, Cg, Kp])
+theorem convCore1 {ain aw : Arr Int} {N Og g Cg Lp Kp : Nat} (hain : ain.shape = [N, g, 1, Cg, Lp]) (haw : aw.shape = [g, Og, Cg, Kp])
     (hOg : 0 < Og) (hg : 0 < g) (hKp : 0 < Kp) (hfit : Kp ≤ Lp) :
     ∃ rs, convCore 1 ain aw = some rs ∧ rs.shape = [N, Og * g, Lp - (Kp - 1)] ∧
       ∀ n o l, n < N → o < Og * g → l < Lp - (Kp - 1) →
         rs.get [n, o, l] = sumTo Cg (fun c => sumTo Kp (fun k =>
-          ain.get [n, 0, o % g, c, l + k] * aw.get [o / g, o % g, c, k])) := by
+          ain.get [n, o / Og, 0, c, l + k] * aw.get [o / Og, o % Og, c, k])) := by
   have e1 : Kp - (Kp - 1) = 1 := by omega
   have hLo : 0 < Lp - (Kp - 1) := by omega
   unfold convCore
@@ -359,16 +363,17 @@ theorem convCore1 {ain aw : Arr Int} {N Og g Cg Lp Kp : Nat} (hain : ain.shape =
     Option.map_some, Option.bind_some, sumAxes, List.length_cons, List.length_nil, List.map_cons, List.map_nil]
   have hp : posI (0 + 1 + 1 + 1 + 1 + 1 + 1) (-1) = 5 := by decide
   have hp3 : posI (0 + 1 + 1 + 1 + 1 + 1 + 1) (-3) = 3 := by decide
-  simp only [hp, hp3, (sum_shape N Og g Cg (Lp - (Kp - 1)) Kp).1, (sum_shape N Og g Cg (Lp - (Kp - 1)) Kp).2, crr1]
+  simp only [hp, hp3, (sum_shape N g Og Cg (Lp - (Kp - 1)) Kp).1, (sum_shape N g Og Cg (Lp - (Kp - 1)) Kp).2, crr1]
   rw [reshapeV_some (by simp) (by simp only [prod]; ring)]
+  rw [Nat.mul_comm g Og]
   refine ⟨_, rfl, rfl, ?_⟩
   intro n o l hn ho hl
   simp only []
-  rw [rsh_reduce hg hn ho hl, listSum_allIdx2]
+  rw [rsh_reduce hOg hn ho hl, listSum_allIdx2]
   apply sumTo_congr; intro c hc
   apply sumTo_congr; intro k hk
-  have hb : o % g < g := Nat.mod_lt _ hg
-  have ha : o / g < Og := (Nat.div_lt_iff_lt_mul hg).2 ho
+  have ha : o % Og < Og := Nat.mod_lt _ hOg
+  have hb : o / Og < g := div_lt_groups hOg ho
   simp only [Nat.reduceAdd, Nat.zero_add, merge6, bIdx, List.length_cons, List.length_nil, Nat.sub_self, List.drop_zero, List.drop_succ_cons,
     List.zipWith_cons_cons, List.zipWith_nil_right, if_true, bsel hn, bsel hb, bsel hc, bsel hl, bsel hk, bsel ha, sw_idx5, sw_idx4, Nat.zero_add]
 
@@ -444,7 +449,7 @@ theorem convnd1_eq_codeLoop {x w : Arr Int} {bias : Option (Arr Int)} {N Og g Cg
     ∃ r, convnd 1 x w bias stride padding dilation g = .ok r ∧
       r.shape = [N, Og * g, outSize L K (strideVal stride) (padVal padding) (dilV dilation)] ∧
       ∀ n o l, n < N → o < Og * g → l < outSize L K (strideVal stride) (padVal padding) (dilV dilation) →
-        r.get [n, o, l] = conv1dLoop (grpCode g) x w bias L Cg K (strideVal stride) (padVal padding) (dilV dilation) n o l := by
+        r.get [n, o, l] = conv1dLoop (grpCode Og) x w bias L Cg K (strideVal stride) (padVal padding) (dilV dilation) n o l := by
   have hdp := dilV_pos hd
   have hsp := strideVal_pos hs
   obtain ⟨rs, hrs, hrss, hrsg⟩ := convCore1 (ain := ainArr x N g Cg L padding) (aw := awArr w Og g Cg K dilation)
@@ -466,24 +471,30 @@ theorem convnd1_eq_codeLoop {x w : Arr Int} {bias : Option (Arr Int)} {N Og g Cg
     unfold conv1dLoop grpCode
     congr 1
     apply sumTo_congr; intro c hc
-    have hb' : o % g < g := Nat.mod_lt _ hg
-    have ha' : o / g < Og := (Nat.div_lt_iff_lt_mul hg).2 ho
-    have hog : o / g * g + o % g = o := by rw [Nat.mul_comm]; exact Nat.div_add_mod o g
+    have hb' : o / Og < g := div_lt_groups hOg ho
+    have ha' : o % Og < Og := Nat.mod_lt _ hOg
+    have hog : o / Og * Og + o % Og = o := by rw [Nat.mul_comm]; exact Nat.div_add_mod o Og
     have step : ∀ k', k' < (K - 1) * dilV dilation + 1 →
-        (ainArr x N g Cg L padding).get [n, 0, o % g, c, l * strideVal stride + k'] * (awArr w Og g Cg K dilation).get [o / g, o % g, c, k']
+        (ainArr x N g Cg L padding).get [n, o / Og, 0, c, l * strideVal stride + k'] * (awArr w Og g Cg K dilation).get [o / Og, o % Og, c, k']
         = if k' % dilV dilation = 0 then
-            padRead x L (padVal padding) n (o % g * Cg + c) (l * strideVal stride + k') * w.get [o, c, k' / dilV dilation]
+            padRead x L (padVal padding) n (o / Og * Cg + c) (l * strideVal stride + k') * w.get [o, c, k' / dilV dilation]
           else 0 := by
       intro k' hk'
       rw [ainArr_get hx hp hn hb' hc (by omega), awArr_get hw hK hd ha' hb' hc hk', hog]
       split <;> simp
     rw [sumTo_congr step]
     exact sumTo_dilate' K (dilV dilation) hK hdp (fun k k' =>
-      padRead x L (padVal padding) n (o % g * Cg + c) (l * strideVal stride + k') * w.get [o, c, k])
+      padRead x L (padVal padding) n (o / Og * Cg + c) (l * strideVal stride + k') * w.get [o, c, k])
 
-/-- where the code's group assignment `o % g` coincides with PyTorch's `o / (O/g)`: one group, or one output channel per group -/
-theorem grpCode_eq_grpSpec {Og g o : Nat} (hdom : g = 1 ∨ Og = 1) (ho : o < Og * g) : grpCode g o = grpSpec (Og * g) g o := by
+/-- the code's group assignment `o / Og` is PyTorch's `o / (O/g)` for every `groups`: `O = Og·g`, so `O / g = Og` -/
+theorem grpCode_eq_grpSpec {Og g : Nat} (hg : 0 < g) (o : Nat) : grpCode Og o = grpSpec (Og * g) g o := by
   unfold grpCode grpSpec
+  rw [Nat.mul_div_cancel _ hg]
+
+/-- where the assignment `o % g` of the code before fixes/C17-conv-groups-interleaved coincided with PyTorch's: one
+    group, or one output channel per group -/
+theorem grpInterleaved_eq_grpSpec {Og g o : Nat} (hdom : g = 1 ∨ Og = 1) (ho : o < Og * g) : grpInterleaved g o = grpSpec (Og * g) g o := by
+  unfold grpInterleaved grpSpec
   rcases hdom with rfl | rfl
   · simp only [Nat.mul_one, Nat.mod_one, Nat.div_one] at ho ⊢
     exact (Nat.div_eq_of_lt ho).symm
